@@ -1135,9 +1135,27 @@ def dataframe_strategy(
 
         row_strategy = None
         if row_strategy_checks:
+            # the row strategy replaces the column element strategies, so it
+            # has to enforce the column-level checks that can be applied to
+            # single elements as well (vectorized column checks with undefined
+            # strategies are applied to the whole dataframe further below)
             row_strategy = st.fixed_dictionaries(
                 {
-                    col_name: make_row_strategy(col, row_strategy_checks)
+                    col_name: make_row_strategy(
+                        col,
+                        [
+                            *(
+                                check
+                                for check in col.checks
+                                if check.strategy
+                                or STRATEGY_DISPATCHER.get(
+                                    (check.name, pd.DataFrame), None
+                                )
+                                or check.element_wise
+                            ),
+                            *row_strategy_checks,
+                        ],
+                    )
                     for col_name, col in expanded_columns.items()
                 }
             )
